@@ -23,6 +23,8 @@ OPERATORS = {
     'getitem': operator.getitem, 'matmul': operator.mul,
     'divmod': divmod,
 }
+PY_BUILTINS = {'str': str, 'repr': repr, 'float': float, 'int': int, 'complex': complex, 'hash': hash, 'bool': bool, 'round': round,
+               'format': format, 'list': list}
 
 class _Null(io.TextIOBase):
     def write(self, s):
@@ -312,6 +314,14 @@ class World(object):
             def _deco():
                 return mgr(*margs, **kwargs)(cb)(x)
             return _deco
+        if head == 'mkdeco':    # the decorated function itself (kept, called in later steps): ctx.<manager>(n, ...)(callback)
+            mgr = getattr(ctx, name)
+            margs = args[:-1]
+            cb = args[-1]
+            return lambda: mgr(*margs, **kwargs)(cb)
+        if head == 'py':        # a Python builtin applied to a number / matrix: str, repr, float, int, complex, hash, bool, round
+            f = PY_BUILTINS[name]
+            return lambda: f(*args)
         if head == 'wrapcall':  # ctx.<name>(callback, *extra) returns a callable; call it with x
             w = getattr(ctx, name)
             cb = args[0]; extra = args[1:-1]; x = args[-1]
